@@ -50,16 +50,33 @@ Print M.
 """
 
 
+SEQ_V = """From Verif Require Import Base.Str Expand.Fields.
+Open Scope N_scope.
+Definition seqs : list (list (option str * list part) * list (list str)) := %s.
+Fixpoint sl_eqb (a b : list str) : bool :=
+  match a, b with [], [] => true | x :: a', y :: b' => str_eqb x y && sl_eqb a' b' | _, _ => false end.
+Fixpoint sll_eqb (a b : list (list str)) : bool :=
+  match a, b with [], [] => true | x :: a', y :: b' => sl_eqb x y && sll_eqb a' b' | _, _ => false end.
+Fixpoint mism (i : nat) (cs : list (list (option str * list part) * list (list str))) : list nat :=
+  match cs with [] => []
+  | (calls, want) :: rest =>
+     if sll_eqb (fields_seq [] calls) want then mism (S i) rest else i :: mism (S i) rest end.
+Definition M := Eval vm_compute in mism 0 seqs.
+Print M.
+"""
+
+
 def run(ctx):
     ctx.coq_props()
     quick = ctx.tier == "quick"
-    n_gen = 2500 if quick else 40000
-    n_wild = 800 if quick else 12000
+    n_gen = 2000 if quick else 40000
+    n_wild = 700 if quick else 12000
+    n_seq = 350 if quick else 5000
     binp = ctx.go_build("c22")
     if not binp:
         return
     streams = {}
-    for mode, n in (("gen", n_gen), ("wild", n_wild), ("pinned", 0)):
+    for mode, n in (("gen", n_gen), ("wild", n_wild), ("seq", n_seq), ("pinned", 0)):
         rc, rows, err = ctx.jsonl([binp, mode, "-seed", str(ctx.seed), "-n", str(n)], timeout=1500)
         if rc != 0 or not rows:
             ctx.broken.append(("harness-run", "c22 %s failed rc=%d %s" % (mode, rc, err[-800:])))
@@ -68,7 +85,8 @@ def run(ctx):
     ctx.rule = ("IFS drawn from unset/empty/default/whitespace/non-whitespace/mixed/multi-byte values; words of 1..4 parts "
                 "(unquoted literal incl. backslash escapes, '..', \"..\" with literal and ${v} pieces incl. \"\", \"..$@..\", ${v}, $((n)), "
                 "\"$@\", \"$*\", $@/$*; wild stream adds $(..), `..`, invalid UTF-8, arrays); values of 0..6 characters, 40% of them IFS characters, "
-                "at the start, middle and end; 0..3 positional parameters; non-trivial = distinct (IFS, word, values) whose "
+                "at the start, middle and end; 0..3 positional parameters; seq stream: 2..3 such words run one after the other by ONE bash, "
+                "ONE Runner and ONE expand.Config while IFS changes in between (custom value, then unset / empty / another value); non-trivial = distinct (IFS, word, values) whose "
                 "expansion yields at least two fields or an empty field")
     # ---- search: Go (interp and expand.Fields) vs bash
     no_oracle = 0
@@ -80,7 +98,7 @@ def run(ctx):
             if r.get("no_oracle"):
                 no_oracle += 1
             for cl in r.get("fails") or []:
-                ctx.fail(cl, {"script": r["script"]}, r.get("class") or None,
+                ctx.fail(cl, {"script": r.get("seq_script") or r["script"], "step": r.get("seq_pos", 0)}, r.get("class") or None,
                          {"interp": r["interp"], "expand_fields": r["fields_s"], "bash": r["bash"]})
     for r in streams["gen"][:3]:
         ctx.sample({"script": r["script"], "go": r["interp"], "bash": r["bash"]})
@@ -92,8 +110,8 @@ def run(ctx):
         if k["status"] == "known" and k["id"] not in superseded and k["class"] not in seen and k.get("witness", {}).get("pinned"):
             ctx.broken.append(("known-finding-witness", "pinned witness of %s no longer fails: update known_findings" % k["id"]))
     # ---- code leg: expand.Fields vs the Coq model, in the kernel
-    rows = [r for m in ("gen", "wild") for r in streams[m] if r["modelled"] and isinstance(r["fields"], list)]
-    notlist = [r for m in ("gen", "wild") for r in streams[m] if r["modelled"] and not isinstance(r["fields"], list)]
+    rows = [r for m in ("gen", "wild", "seq") for r in streams[m] if r["modelled"] and isinstance(r["fields"], list)]
+    notlist = [r for m in ("gen", "wild", "seq") for r in streams[m] if r["modelled"] and not isinstance(r["fields"], list)]
     mism = [{"script": r["script"], "go": r["fields"]} for r in notlist]
     total = len(notlist)
     for sh in range(0, len(rows), 1500):
@@ -112,6 +130,27 @@ def run(ctx):
             r = part[i]
             mism.append({"script": r["script"], "parts": r["parts"], "go_fields": r["fields_s"]})
     ctx.leg("code:expand.Fields vs Expand/Fields.v word_fields (vm_compute in kernel)", total, mism)
+    # ---- code leg 2: sequences of calls on ONE expand.Config with a changing environment vs fields_seq
+    groups = {}
+    for r in streams["seq"]:
+        groups.setdefault(r["seq"], []).append(r)
+    seqs = [g for g in groups.values() if all(r["modelled"] and isinstance(r["fields"], list) for r in g)]
+    smism = []
+    for sh in range(0, len(seqs), 500):
+        part = seqs[sh:sh + 500]
+        items = []
+        for g in part:
+            calls = coq_list(["(%s,%s)" % ("Some " + nl(r["ifs"]) if r["ifs_set"] else "None",
+                                           coq_list([coq_part(p) for p in r["parts"]])) for r in g])
+            items.append("(%s,%s)" % (calls, coq_list([nll(r["fields"]) for r in g])))
+        ok, out = ctx.coq_cases("c22seq_%d_%d" % (ctx.seed, sh), SEQ_V % coq_list(items))
+        m = re.search(r"M\s*=\s*(\[[^\]]*\])", out)
+        if not ok or not m:
+            ctx.broken.append(("correspondence:code-eval", "coqc on generated sequences failed: " + out[-800:]))
+            return
+        for i in (int(x) for x in re.findall(r"\d+", m.group(1))):
+            smism.append({"script": part[i][0]["seq_script"], "go_fields": [r["fields_s"] for r in part[i]]})
+    ctx.leg("code:sequences on one expand.Config vs fields_seq (vm_compute in kernel)", len(seqs), smism)
     ctx.assumptions += [
         "strings are modelled as lists of code points; the code leg feeds valid UTF-8 only (invalid bytes: search only)",
         "tilde expansion, globbing, brace expansion and the expansion of the parts themselves are outside the model",
